@@ -31,7 +31,7 @@ def deco(f):
 
 KINDS = ['assign', 'print', 'print2', 'expr', 'printexpr', 'none', 'multi', 'compound', 'def', 'semicolon']
 # the richer statement grammar of the C01 program generator (C01, C18, C19, C20)
-MORE_KINDS = ['augassign', 'for', 'while', 'with', 'try', 'decodef', 'class', 'literal_comment', 'triple', 'triple_unprefixed', 'triple_blank', 'triple_trailing_ws',
+MORE_KINDS = ['augassign', 'for', 'while', 'with', 'try', 'decodef', 'class', 'literal_comment', 'triple', 'triple_unprefixed', 'triple_blank', 'triple_trailing_ws', 'triple_late_unprefixed',
               'import', 'comment', 'async_await', 'async_for', 'async_with']
 ALL_KINDS = KINDS + MORE_KINDS
 
@@ -109,6 +109,10 @@ class Stmt:
             self.lines = ["s%d = t(%d) and '''first" % (k, k), '', "  third %d'''" % k, "print(len(s%d.split(chr(10))))" % k]
             self.starts = [0, 3]
             self.out = '3\n'
+        elif kind == 'triple_late_unprefixed':
+            # the string opens on a continuation line of the statement; its further lines carry no prompt
+            self.lines = ['z%d = "{}|{}".format(t(%d),' % (k, k), "    '''first", '  body %d' % k, " - leaf", "last''')"]
+            self.unprefixed = [2, 3, 4]
         elif kind == 'triple_trailing_ws':
             # blanks at the end of the lines of a multi-line string are part of its value
             body = ['first  ', '  body %d   ' % k, "last"]
@@ -271,6 +275,8 @@ def render_layout(rng, stmts, want_prob=0.6, allow_prose=True, google=None, vary
         lines += s.render(style, indent)
         prev = 'src'
         cw = correct_wants(stmts, lo, j)
+        if s.kind == 'triple_late_unprefixed' and style == 'ps1':
+            cw = {}       # Guard F16 (known finding of C01): no want directly behind this layout; the output is wanted later
         if cw and rng.random() < want_prob:
             name = rng.choice(sorted(k for k in cw if k in ('all', 'repr')) or sorted(cw))
             wants[j] = cw[name]
